@@ -95,3 +95,13 @@ func VStats(n int) {
 	zzv.Observe("stats", n, res.Total, res.ScrapedTotal)
 	zzv.Cover("stats.end")
 }
+
+// VManagerWith builds a scrape.Manager that knows exactly one job (harnesses of other packages
+// cannot reach the unexported job table).
+func VManagerWith(job string, info *JobInfo) *Manager {
+	m := &Manager{jobs: map[string]*JobInfo{}}
+	if info != nil {
+		m.jobs[job] = info
+	}
+	return m
+}
